@@ -135,7 +135,8 @@ def handle (op : String) (j : Json) : Option Json :=
         benchJson := fun k => (bj.lookup k).getD "?".toList
         runJson := fun k b => (rj.lookup (k, b)).getD "?".toList
         comment := fun i => (comments[i]?.getD "").toList
-        hdr := hdr.toList }
+        hdr := hdr.toList
+        profile := (getBool? j "profile").getD false }
       let t := sessText ⟨benches, runs⟩ (mkSess R cmd.toList empty ds)
       pure (Json.mkObj [("text", Json.str (String.ofList t)), ("rend_ok", Json.bool (rendOk R)),
         ("dps_ok", Json.bool (ds.all (dpOk R))), ("cmd_ok", Json.bool (cmdOk cmd.toList && noCR cmd.toList))])
